@@ -39,6 +39,7 @@ def std_registry(kind: str) -> List[Dict[str, Any]]:
         # async dispatcher only: a coroutine method behind a plain (non-async) decorator
         {'name': 'wrapped', 'params': [P('a', default=None)], 'flavour': 'wcoro' if kind == 'async' else 'wfunc', 'ctx': 'none'},
         {'name': 'bad.get', 'params': [P('a', default=None)], 'flavour': av, 'ctx': 'view', 'ctor_raises': True},
+        {'name': 'bad2.get', 'params': [P('a', default=None)], 'flavour': av, 'ctx': 'view', 'ctor_raises': 'KeyError'},
         # a method name with a leading underscore (legal in JSON-RPC; registered under an explicit name)
         {'name': '_us', 'params': [P('a', default=None)], 'flavour': 'func', 'ctx': 'none'},
         # a name under the 'rpc.' prefix (the protocol reserves it for extensions; an application may well register one)
@@ -107,8 +108,13 @@ class _Gen:
             return {'cls': 'JsonRpcError', 'code': draw(self.s_code), 'message': draw(self.s_msg), 'data': self._data(draw)}
         if k == 1:
             # the classes the library itself answers with, raised deliberately by the application with its own message / data
-            return {'cls': draw(self.s_libtyped), 'code': None, 'message': draw(self.s_msg_or_none), 'data': self._data(draw)}
-        return {'cls': draw(self.s_typed), 'code': None, 'message': draw(self.s_msg_or_none), 'data': self._data(draw)}
+            return {'cls': draw(self.s_libtyped), 'code': self._own_code(draw), 'message': draw(self.s_msg_or_none), 'data': self._data(draw)}
+        return {'cls': draw(self.s_typed), 'code': self._own_code(draw), 'message': draw(self.s_msg_or_none), 'data': self._data(draw)}
+
+    def _own_code(self, draw):
+        # a typed class is mostly raised with its class-level code; now and then the application passes a code of its own to the
+        # constructor (ServerError(code=-32050) is how the reserved range is used without declaring a class per code)
+        return draw(self.s_code) if draw(self.s_three) == 0 else None
 
     def _behaviours(self, draw, pyforms: bool = False):
         bits = draw(self.s_bits)
